@@ -274,6 +274,11 @@ func genCacheEvents(t *rapid.T, c *CacheCase, nev int) {
 			for k := len(c.Events) - 1; k >= 0; k-- {
 				if c.Events[k].Kind == 5 && len(c.Events[k].Refs) > 0 {
 					e.Author = c.Events[k].Author
+					if rapid.IntRange(0, 2).Draw(t, "foreigntwin") == 0 {
+						// the same references from another author (must have no effect
+						// and must not get in the way of the owner's request)
+						e.Author = (e.Author + 1) % 3
+					}
 					e.Refs = append(e.Refs, c.Events[k].Refs...)
 					e.Refs = append(e.Refs, c.Events[k].Refs[0])
 					break
